@@ -414,6 +414,42 @@ func runCut(cc cutCase, seed int64) cutOutcome {
 			}
 		}
 	}
+	// C04 on a dropped connection: nothing is executed or answered twice, and
+	// nothing is executed that was not delivered
+	{
+		_, cdel := c.pair.Counts(memnet.C2S)
+		delivered := map[string]bool{}
+		for _, q := range view.Reqs {
+			if q.ID != "" && int64(q.End) <= cdel {
+				delivered[q.ID] = true
+			}
+		}
+		ex, _, _ := r.Ledger.Snapshot()
+		cnt := map[string]int{}
+		for _, e := range ex {
+			if !e.Known {
+				continue
+			}
+			cnt[e.ID]++
+			if cnt[e.ID] == 2 {
+				bad("C04", "C04/cut/executed-twice", fmt.Sprintf("request %s was executed twice", e.ID))
+			}
+			if !delivered[e.ID] {
+				bad("C04", "C04/cut/executed-undelivered", fmt.Sprintf("request %s was executed although its frame was not completely delivered to the server (%d bytes delivered)", e.ID, cdel))
+			}
+		}
+		rc := map[uint64]int{}
+		ss := view.StreamSeqs()
+		for _, x := range view.Ress {
+			if ss[x.Seq] {
+				continue
+			}
+			rc[x.Seq]++
+			if rc[x.Seq] == 2 {
+				bad("C04", "C04/cut/answered-twice", fmt.Sprintf("two responses with sequence number %d were written", x.Seq))
+			}
+		}
+	}
 	// a call issued now must fail at once
 	if cutHappened && fin {
 		synctest.Wait()
